@@ -24,9 +24,89 @@ LEVELS = {
 Z_VALUES = ((1.0, 0.0), (100.0, 0.0))  # index 0 = the default value of "z"
 
 
-def level_pairs(lvl):
-    outs, ins = LEVELS[lvl]
+def level_pairs(lvl, levels=LEVELS):
+    outs, ins = levels[lvl]
     return {(o, i) for o in outs for i in ins}
+
+
+class Codec:
+    """The value kinds of DiscCache.tla: how the lattice variable "x" (abstract identity: the lattice
+    index xi) is represented in the discipline data.  Pure transport: encode an index, edit a
+    representation in place the way a caller would, decode what came back from gemseo."""
+
+    KINDS = ("float", "int", "complex", "mat", "str", "pystr", "dict", "list")
+
+    def __init__(self, kind, xv, scale):
+        if kind not in self.KINDS:
+            raise ValueError(kind)
+        self.kind = kind
+        # the integer kind represents XV[i] itself, the others XV[i]/scale (see Unit in the specification)
+        self.values = [v if kind == "int" else v / scale for v in xv]
+        self.pytype = {"pystr": str, "dict": dict, "list": list}.get(kind, np.ndarray)
+
+    def value(self, xi):
+        """The number the body computes with."""
+        return float(self.values[xi - 1])
+
+    def _leaf(self, xi):
+        v = self.values[xi - 1]
+        k = self.kind
+        if k == "int":
+            return array([int(v)])
+        if k == "complex":
+            return array([complex(v, 0.0)])
+        if k == "mat":
+            return array([[v, 0.0], [0.0, 0.0]])
+        if k == "str":
+            return array([f"p{xi}"])
+        if k == "pystr":
+            return f"p{xi}"
+        return array([v])
+
+    def enc(self, xi):
+        """A fresh representation of lattice index xi."""
+        if self.kind == "dict":
+            return {"a": self._leaf(xi), "b": array([1.0])}
+        if self.kind == "list":
+            return [self._leaf(xi), array([1.0])]
+        return self._leaf(xi)
+
+    def set(self, rep, xi):
+        """The caller's in-place edit (of the inner array for a container; a plain str is immutable: the
+        caller can only rebind it).  -> the representation to pass from now on."""
+        k = self.kind
+        if k == "pystr":
+            return f"p{xi}"
+        leaf = rep["a"] if k == "dict" else rep[0] if k == "list" else rep
+        new = self._leaf(xi)
+        if k == "mat":
+            leaf[0, 0] = new[0, 0]
+        else:
+            leaf[0] = new[0]
+        return rep
+
+    def dec(self, rep):
+        """Lattice index represented by rep (as passed, or as read back from a cache); 0: none."""
+        try:
+            k = self.kind
+            if k == "dict":
+                rep = rep["a"]
+            elif k == "list":
+                rep = rep[0]
+            a = np.asarray(rep).ravel()[0]
+            if k in ("str", "pystr"):
+                t = str(a)
+                xi = int(t[1:]) if t[:1] == "p" else 0
+                return xi if 1 <= xi <= len(self.values) else 0
+            c = complex(a)
+            if c.imag != 0.0:
+                return 0
+            for i, v in enumerate(self.values):
+                if v == c.real:
+                    return i + 1
+        except Exception:  # noqa: BLE001
+            pass
+        return 0
 
 
 class CDisc(Discipline):
@@ -101,23 +181,151 @@ class SDisc(Discipline):
         return {"x": x, "y": y, "w": w}
 
 
+class KDisc(Discipline):
+    """Value-kind flavour: "x" is represented as the codec says (integer / complex / 2-D / string array,
+    plain str, dict or list holding arrays; SimpleGrammar typed accordingly), "z" is a float array.
+    y, w are polynomials of the NUMBER x stands for; the Jacobian is taken with respect to "z" only
+    (a string has no derivative)."""
+
+    default_grammar_type = Discipline.GrammarType.SIMPLE
+    INS = ("x", "z")
+    OUTS = ("y", "w")
+    LEVELS = {1: (("y",), ("z",)), 2: (("y", "w"), ("z",))}
+
+    def __init__(self, codec):
+        super().__init__("D")
+        self.codec = codec
+        self.io.input_grammar.update_from_types({"x": codec.pytype, "z": np.ndarray})
+        self.io.output_grammar.update_from_types({"y": np.ndarray, "w": np.ndarray})
+        self.default_input_data = {"x": codec.enc(1), "z": array(Z_VALUES[0])}
+        self.inplace = False
+        self.run_log = []
+        self.lin_log = []
+
+    def _num(self, rep):
+        xi = self.codec.dec(rep)
+        if not xi:
+            raise ValueError(f"the body received a value of x that is no lattice point: {rep!r}")
+        return self.codec.value(xi)
+
+    def _run(self, input_data):
+        x, z = self._num(input_data["x"]), input_data["z"]
+        self.run_log.append((x, float(z[0])))
+        return {"y": array([x ** 2 + x * z[0] + z[1]]), "w": array([x - 2 * z[0], 3 * x])}
+
+    def _compute_jacobian(self, input_names=(), output_names=()):
+        x, z = self._num(self.io.data["x"]), self.io.data["z"]
+        self.lin_log.append((x, float(z[0])))
+        full = {"y": {"z": array([[x, 1.0]])}, "w": {"z": csr_array(array([[-2.0, 0.0], [0.0, 0.0]]))}}
+        self.jac = {o: {i: full[o][i] for i in (input_names or ("z",))} for o in (output_names or self.OUTS)}
+
+
+class _M1(Discipline):
+    """u = x**2 + x*z0"""
+
+    def __init__(self):
+        super().__init__("M1")
+        self.input_grammar.update_from_names(["x", "z"])
+        self.output_grammar.update_from_names(["u"])
+        self.default_input_data = {"x": array([0.0]), "z": array(Z_VALUES[0])}
+
+    def _run(self, input_data):
+        x, z = input_data["x"], input_data["z"]
+        return {"u": array([x[0] ** 2 + x[0] * z[0]])}
+
+    def _compute_jacobian(self, input_names=(), output_names=()):
+        x, z = self.io.data["x"], self.io.data["z"]
+        self.jac = {"u": {"x": array([[2 * x[0] + z[0]]]), "z": array([[x[0], 0.0]])}}
+
+
+class _M2(Discipline):
+    """y = u + z1 ; w = (x - 2*z0, u*x)"""
+
+    def __init__(self):
+        super().__init__("M2")
+        self.input_grammar.update_from_names(["u", "x", "z"])
+        self.output_grammar.update_from_names(["y", "w"])
+        self.default_input_data = {"u": array([0.0]), "x": array([0.0]), "z": array(Z_VALUES[0])}
+
+    def _run(self, input_data):
+        u, x, z = input_data["u"], input_data["x"], input_data["z"]
+        return {"y": array([u[0] + z[1]]), "w": array([x[0] - 2 * z[0], u[0] * x[0]])}
+
+    def _compute_jacobian(self, input_names=(), output_names=()):
+        u, x = self.io.data["u"], self.io.data["x"]
+        self.jac = {
+            "y": {"u": array([[1.0]]), "x": array([[0.0]]), "z": array([[0.0, 1.0]])},
+            "w": {"u": array([[0.0], [x[0]]]), "x": array([[1.0], [u[0]]]), "z": array([[-2.0, 0.0], [0.0, 0.0]])},
+        }
+
+
+def _make_chain_class():
+    from gemseo.core.chains.chain import MDOChain
+
+    class CChain(MDOChain):
+        """Process-discipline flavour: an MDOChain of two nonlinear polynomial members with the cache under
+        test at the level of the CHAIN (the members keep their default caches).  "The body" is the
+        execution of the members by the chain; a re-execution of the members from inside the assembly of
+        the Jacobian belongs to the linearization and is logged there."""
+
+        INS = ("x", "z")
+        OUTS = ("u", "y", "w")
+        LEVELS = {1: (("y",), ("x",)), 2: (("y", "w"), ("x", "z")), 3: (("u", "y", "w"), ("x", "z"))}
+
+        def __init__(self):
+            super().__init__([_M1(), _M2()], name="D")
+            self.inplace = False
+            self.run_log = []
+            self.lin_log = []
+            self.relin_log = []
+            self._in_lin = False
+
+        def _execute(self):
+            log = self.relin_log if self._in_lin else self.run_log
+            log.append((float(self.io.data["x"][0]), float(self.io.data["z"][0])))
+            super()._execute()
+
+        def _compute_jacobian(self, input_names=(), output_names=()):
+            self.lin_log.append((float(self.io.data["x"][0]), float(self.io.data["z"][0])))
+            self._in_lin = True
+            try:
+                super()._compute_jacobian(input_names, output_names)
+            finally:
+                self._in_lin = False
+
+    return CChain
+
+
 def dense(m):
     return np.asarray(m.todense()) if hasattr(m, "todense") else np.asarray(m)
 
 
 class World:
-    """Lattice <-> arrays, and the value oracle: an uncached twin evaluated at lattice points."""
+    """Lattice <-> discipline data, and the value oracle: an uncached twin evaluated at lattice points.
 
-    def __init__(self, xv, scale, nz, fx=None):
+    flavour: "std" (CDisc), "selfupd" (SDisc, fx given), "kinds" (KDisc, x represented as vkind says),
+    "chain" (an MDOChain of two members, cache at chain level)."""
+
+    def __init__(self, xv, scale, nz, fx=None, flavour=None, vkind="float"):
         """fx: lattice index -> lattice index (the specification's FX) for the self-coupled flavour."""
         self.xv = list(xv)
         self.scale = scale
+        self.flavour = flavour or ("selfupd" if fx is not None else "std")
+        self.vkind = vkind
+        self.codec = Codec(vkind, xv, scale)
         self.points = [(xi, zi) for xi in range(1, len(self.xv) + 1) for zi in range(nz)]
-        self.selfupd = fx is not None
-        self.outs = SDisc.OUTS if self.selfupd else OUTS
+        self.selfupd = self.flavour == "selfupd"
         self.table = {self.xv[i - 1] / scale: self.xv[j - 1] / scale for i, j in fx.items()} if fx else None
+        self._chain_class = _make_chain_class() if self.flavour == "chain" else None
+        cls = {"std": CDisc, "selfupd": SDisc, "kinds": KDisc, "chain": self._chain_class}[self.flavour]
+        self.ins = cls.INS if self.flavour != "std" else INS
+        self.outs = cls.OUTS if self.flavour != "std" else OUTS
+        self.levels = getattr(cls, "LEVELS", LEVELS)
+        self.top = max(self.levels)
         self.twin = self.new_discipline(False)
         self.twin.set_cache("")  # uncached
+        if self.flavour == "kinds":  # (no derivative with respect to a string: never "all the Jacobians")
+            self.declare(self.twin, self.top)
         self._out = {}
         self._jac = {}
         for p in self.points:
@@ -125,24 +333,37 @@ class World:
             data = self.twin.execute(self.inputs(p, za))  # fresh arrays
             self._out[p] = {k: np.array(data[k], copy=True) for k in self.outs}
             if not self.selfupd:
-                j = self.twin.linearize(self.inputs(p, za), compute_all_jacobians=True)
-                self._jac[p] = {(o, i): dense(j[o][i]).copy() for o in OUTS for i in INS}
+                j = self.twin.linearize(self.inputs(p, za), compute_all_jacobians=self.flavour != "kinds")
+                self._jac[p] = {(o, i): dense(j[o][i]).copy() for o, i in level_pairs(self.top, self.levels)}
 
     def new_discipline(self, inplace):
-        return SDisc(self.table) if self.selfupd else CDisc(inplace)
+        if self.flavour == "selfupd":
+            return SDisc(self.table)
+        if self.flavour == "kinds":
+            return KDisc(self.codec)
+        if self.flavour == "chain":
+            return self._chain_class()
+        return CDisc(inplace)
+
+    def declare(self, disc, lvl):
+        """Declare the differentiated inputs/outputs of Jacobian level lvl."""
+        outs, ins = self.levels[lvl]
+        disc.add_differentiated_inputs(list(ins))
+        disc.add_differentiated_outputs(list(outs))
 
     def index_of(self, value):
-        """Lattice index of a value of "x" (0: not a lattice value)."""
+        """Lattice index of a float value of "x" (0: not a lattice value)."""
         for i, v in enumerate(self.xv):
             if v / self.scale == value:
                 return i + 1
         return 0
 
     def xval(self, xi):
-        return self.xv[xi - 1] / self.scale
+        """The number the body computes with at lattice index xi."""
+        return self.codec.value(xi)
 
-    def inputs(self, p, za, xarr=None):
-        d = {"x": xarr if xarr is not None else array([self.xval(p[0])])}
+    def inputs(self, p, za, xrep=None):
+        d = {"x": xrep if xrep is not None else self.codec.enc(p[0])}
         if za == "dflt":
             d["z"] = array(Z_VALUES[0])
         elif za == "alt":
@@ -152,12 +373,12 @@ class World:
     # ---- translation of returned arrays into lattice points ([0, 0] = no lattice point)
     def point_of_inputs(self, inputs):
         try:
-            x = float(np.ravel(inputs["x"])[0])
+            xi = self.codec.dec(inputs["x"])
             z = tuple(float(v) for v in np.ravel(inputs["z"]))
         except Exception:  # noqa: BLE001
             return (0, 0)
         for p in self.points:
-            if self.xval(p[0]) == x and Z_VALUES[p[1]] == z:
+            if p[0] == xi and Z_VALUES[p[1]] == z:
                 return p
         return (0, 0)
 
@@ -178,7 +399,7 @@ class World:
         if not jac:
             return 0, (0, 0)
         pairs = {(o, i) for o, d in jac.items() for i in d}
-        lvl = max((l for l in LEVELS if level_pairs(l) <= pairs), default=0)
+        lvl = max((l for l in self.levels if level_pairs(l, self.levels) <= pairs), default=0)
         for p in self.points:
             ref = self._jac[p]
             try:
@@ -200,7 +421,7 @@ KIND_TO_CACHE = {
 class Driver:
     """One real discipline with one cache policy, stepped by the labels of the specification."""
 
-    def __init__(self, world: World, kind, tol, inplace, workdir, tag, cells_init, reuse=None):
+    def __init__(self, world: World, kind, tol, inplace, workdir, tag, cells_init, reuse=None, diff0=0):
         """reuse: the Driver of the previous path (same kind and tolerance).  Creating a full cache costs
         15-35 ms (multiprocessing manager objects, HDF5 file singleton), so its cache object is emptied
         with clear() and handed to the new discipline instead of building a new one for every path."""
@@ -220,9 +441,12 @@ class Driver:
             self.d.cache = cache
         else:
             self._set_cache()
-        self.cells = {c: array([world.xval(xi)]) for c, xi in cells_init.items()}
+        # the caller's own objects: an array, or a container holding the array that is edited in place
+        self.cells = {c: world.codec.enc(xi) for c, xi in cells_init.items()}
         self.cell_idx = dict(cells_init)
         self.diff = 0
+        for _ in range(diff0):
+            self.set_diff()
 
     def _set_cache(self):
         if self.kind == "none":
@@ -275,7 +499,7 @@ class Driver:
             p = (xi, 0)
             return p, self.w.inputs(p, za)
         p = (self.cell_idx[c], 1 if za == "alt" else 0)
-        return p, self.w.inputs(p, za, xarr=self.cells[c])  # the caller's own array, by reference
+        return p, self.w.inputs(p, za, xrep=self.cells[c])  # the caller's own object, by reference
 
     def execute(self, c, za, xi=None):
         p, inp = self._call_inputs(c, za, xi)
@@ -283,28 +507,34 @@ class Driver:
         data = self.d.execute(inp)
         n_ran = len(self.d.run_log) - n0
         ev = {"op": "exec", "c": c, "x": list(p), "hasOut": True, "src": list(self.w.point_of_outputs(data)),
-              "ran": n_ran > 0, "req": 0, "jl": 0, "jsrc": [1, 0], "lin": False, "after": self._after(c)}
+              "ran": n_ran > 0, "req": 0, "jl": 0, "jsrc": [1, 0], "lin": False, "relin": False,
+              "after": self._after(c)}
         return ev, self._body_ok(p, n0, n_ran)
 
     def _after(self, c):
         """What the caller's array holds after the call (read from the array, not predicted)."""
         if c == "lit":
             return 0
-        self.cell_idx[c] = self.w.index_of(float(self.cells[c][0]))
+        self.cell_idx[c] = self.w.codec.dec(self.cells[c])
         return self.cell_idx[c]
 
     def linearize(self, c, za, mode, ex, xi=None):
         p, inp = self._call_inputs(c, za, xi)
         n0, m0 = len(self.d.run_log), len(self.d.lin_log)
+        r0 = len(getattr(self.d, "relin_log", ()))
         jac = self.d.linearize(inp, compute_all_jacobians=(mode == "all"), execute=ex)
         n_ran = len(self.d.run_log) - n0
+        relin = list(getattr(self.d, "relin_log", ()))[r0:]
         jl, jsrc = self.w.read_jacobian(jac)
         # after linearize() the self-coupled "s" of the local data is reset to its input value
         src = self.w.point_of_outputs(self.d.io.data, ("y", "w")) if ex else (1, 0)
         ev = {"op": "lin", "c": c, "x": list(p), "hasOut": bool(ex), "src": list(src), "ran": n_ran > 0,
-              "req": 3 if mode == "all" else self.diff, "jl": jl, "jsrc": list(jsrc),
-              "lin": len(self.d.lin_log) > m0, "after": self._after(c)}
-        return ev, self._body_ok(p, n0, n_ran)
+              "req": self.w.top if mode == "all" else self.diff, "jl": jl, "jsrc": list(jsrc),
+              "lin": len(self.d.lin_log) > m0, "relin": bool(relin), "after": self._after(c)}
+        problem = self._body_ok(p, n0, n_ran)
+        if relin and any(r != (self.w.xval(p[0]), Z_VALUES[p[1]][0]) for r in relin):
+            problem = problem or f"the members were re-executed at {relin} for a call at point {p}"
+        return ev, problem
 
     def _body_ok(self, p, n0, n_ran):
         """Transport sanity: the body ran at most once and at the input of the call."""
@@ -317,15 +547,15 @@ class Driver:
         return None
 
     def mutate(self, c, v):
-        self.cells[c][0] = self.w.xval(v)  # in place
+        before = self.entries()
+        self.cells[c] = self.w.codec.set(self.cells[c], v)  # in place (a plain str can only be rebound)
         self.cell_idx[c] = v
-        return {"op": "mutate", "c": c, "v": v}
+        # what the cache shows after the caller's edit vs before it (read through its API)
+        return {"op": "mutate", "c": c, "v": v, "same": self.entries() == before}
 
     def set_diff(self):
         self.diff += 1
-        outs, ins = LEVELS[self.diff]
-        self.d.add_differentiated_inputs(list(ins))
-        self.d.add_differentiated_outputs(list(outs))
+        self.w.declare(self.d, self.diff)
         return {"op": "setdiff"}
 
     def clear(self):
